@@ -286,6 +286,12 @@ SEPS = ['T', ' ', '%ET', ' at ']
 
 def gen_lossless(rng, off_has_seconds):
     d = rng.choice(DATE_FORMS); tm = rng.choice(TIME_FORMS)
+    if rng.random() < 0.12:
+        # a width-limited day field directly followed by the hour field (no separator)
+        d = rng.choice([['%Y', '-', '%m', '%e'], ['%Y', '-', '%m', '-', '%e'], ['%Y', '%m', '%d'] if False else ['%Y', '-', '%m', '%d']])
+        tm = rng.choice([t for t in TIME_FORMS if t[0] == '%H'])
+        o = rng.choice(OFF_FORMS)
+        return [t for t in d + tm + o if t != '']
     o = rng.choice(OFF_FORMS if off_has_seconds or rng.random() < 0.6 else [['%Ez'], ['%z'], ['%:z']])
     parts = [d, [rng.choice(SEPS)], tm, [rng.choice(['', ' '])], o]
     if rng.random() < 0.2: parts = [o, [' '], d, [' '], tm]
@@ -368,7 +374,8 @@ FRAC_CASES = [(b'%E*S', b'05.'), (b'%E3S', b'05.'), (b'%H:%M:%E*S', b'20:21:05.'
               (b'%E*f', b'.'), (b'%E*f', b'123'), (b'%S.%E*f', b'05.'), (b'%S.%E*f', b'05.0'), (b'%E0S', b'05.'), (b'%E15S', b'59.999999999999999'), (b'%E15S', b'59.9999999999999999'),
               (b'%E*S', b'60.5'), (b'%E*S', b'61'), (b'%E*S', b'05.x'), (b'%E*S', b'05..5'), (b'%E2f', b'5x'), (b'%E*S %Ez', b'05. +01:00'), (b'%H%E*S', b'1205.'),
               (b'%E*z', b'+01:00:'), (b'%E*z', b'+01:'), (b'%Ez', b'+01:0'), (b'%z', b'+010'), (b'%Ez', b'+24:00'), (b'%Ez', b'-00:00:60'), (b'%E4Y', b'12345'), (b'%E4Y', b'-99'),
-              (b'%E4Y', b'-0999'), (b'%Y', b'-0'), (b'%m', b'1'), (b'%m', b'-1'), (b'%d', b' 5'), (b'%e', b' 5'), (b'%e', b'  5'), (b'%e', b' 15'), (b'%H', b'24'), (b'%M', b'60'), (b'%S', b'60'), (b'%S', b'61')]
+              (b'%m%e%H', b'03 123'), (b'%m/%e', b'3/ 12'), (b'%m/%e', b'3/ 31'), (b'%m%e%H%M', b'03 12345'), (b'%Y-%m%e%H', b'2013-03 123'), (b'%e%H', b' 123'),
+              (b'%e%H', b'1123'), (b'%m%d%H', b'030123'), (b'%e %H', b' 1 23'), (b'%e', b'  1'), (b'%H%e', b'23 1'), (b'%E4Y', b'-0999'), (b'%Y', b'-0'), (b'%m', b'1'), (b'%m', b'-1'), (b'%d', b' 5'), (b'%e', b' 5'), (b'%e', b'  5'), (b'%e', b' 15'), (b'%H', b'24'), (b'%M', b'60'), (b'%S', b'60'), (b'%S', b'61')]
 
 
 def run_C09(chk):
@@ -438,6 +445,15 @@ def run_C09(chk):
                 text_b = text_b.replace(b':59', b':60', 1) if text_b.count(b':59') == 1 and fields[4] != 59 else text_b
                 if b':60' in text_b: kind = 'leap'
             b.append('parse %s %s %s' % (zid, hx(fmt_b), hx(text_b))); m.append((kind, tuple(fields), use_off, off, fmt_b, text_b))
+        # ':60' at the very end of a repeated civil hour (and around every overlap / gap): rolls to the next minute
+        for tch in (orc.ch if len(orc.ch) <= 40 else rng.sample(orc.ch, 40)):
+            ob = zn.offset_at(tch - 1)[0]; oa = zn.offset_at(tch)[0]
+            for x in (tch + ob - 1, tch + oa - 1, tch + min(oa, ob) - 1 - 60, tch + max(oa, ob) - 1 + 60):
+                fx = C.civil_of_sec(x)
+                if fx[5] != 59 or not (1 <= fx[0] <= 9999): continue
+                fmt, build = FIELD_FORMS[0]
+                text_b = build(fx).encode()[:-2] + b'60'
+                b.append('parse %s %s %s' % (zid, hx(fmt.encode()), hx(text_b))); m.append(('leap', tuple(fx), False, 0, fmt.encode(), text_b))
         # int64 limits and %s
         for sv in (I64MIN, I64MAX, I64MIN + 1, 0, -1):
             b.append('parse %s %s %s' % (zid, hx(b'%s'), hx(str(sv).encode()))); m.append(('percent-s', sv, False, 0, b'%s', str(sv).encode()))
